@@ -51,6 +51,9 @@ func oddWorld(t *rapid.T) cfggen.World {
 	for i := 0; i < n; i++ {
 		w.Cfg.Users = append(w.Cfg.Users, extra[rapid.IntRange(0, len(extra)-1).Draw(t, "extra")])
 	}
+	// a user with a generated command/service policy (invalid and odd patterns included)
+	w.Cfg.Users = append(w.Cfg.Users, cfggen.User{Name: "ruler", Scopes: []string{cfggen.ScopeA, cfggen.ScopeB}, Commands: genRules(t, 6), Services: genServices(t, 3),
+		Groups: []cfggen.Group{{Name: "g", Commands: genRules(t, 3)}}})
 	// the control user, in both scopes
 	w.Cfg.Users = append(w.Cfg.Users, cfggen.User{Name: ctlUser, Scopes: []string{cfggen.ScopeA, cfggen.ScopeB}, Authenticator: cfggen.BcryptAuth(ctlPassword)})
 	return w
@@ -84,7 +87,7 @@ func genC14Conn(t *rapid.T, w cfggen.World) c14Conn {
 	n := rapid.IntRange(1, 8).Draw(t, "nchunks")
 	for i := 0; i < n; i++ {
 		sess := rapid.SampledFrom([]uint32{1, 2, 3}).Draw(t, "sess")
-		kind := rapid.SampledFrom([]string{"authen", "authen", "author", "acct", "foreign", "garbage", "lengths", "authen-next", "authen-next"}).Draw(t, "kind")
+		kind := rapid.SampledFrom([]string{"authen", "authen", "author", "author-policy", "author-policy", "acct", "foreign", "garbage", "lengths", "authen-next", "authen-next"}).Draw(t, "kind")
 		var typ, minor byte
 		var body []byte
 		note := kind
@@ -103,6 +106,22 @@ func genC14Conn(t *rapid.T, w cfggen.World) c14Conn {
 			typ, minor, body = 1, sc.Pkts[0].Minor, sc.Pkts[0].body()
 			pend, pendSess = sc.Pkts[1:], sess
 			note = "authen:" + sc.Flavour
+		case "author-policy":
+			// the kind of request C11 sends, for the user with the generated policy; often sent twice
+			r := genC11Request(t, []string{"ruler", "ruler", "ruler", "mallory"})
+			var margs []model.B
+			for _, a := range r.Args {
+				margs = append(margs, model.B(a))
+			}
+			typ = 2
+			body = model.AuthorRequest{Method: 6, Priv: 1, AType: 1, Service: 1, User: model.B(r.User), Port: b("p"), RemAddr: b("r"), Args: margs}.Encode()
+			if rapid.Bool().Draw(t, "twice") {
+				if seqs[sess] == 0 {
+					seqs[sess] = 1
+				}
+				h := model.Header{Version: 0xc0, Type: typ, Seq: byte(seqs[sess]), Session: sess}
+				cc.Chunks = append(cc.Chunks, c14Chunk{Wire: model.Frame(key, h, body), Note: "author-policy"})
+			}
 		case "author":
 			args := [][]string{{"service=shell", "cmd=show", "cmd-arg=x"}, {"service=shell", "cmd="}, {"service=ppp", "protocol=ip"}, {}, {"cmd=show"}, {"=", "**", "a="}}[rapid.IntRange(0, 5).Draw(t, "args")]
 			var margs []model.B
